@@ -28,11 +28,13 @@ def _prod(xs) -> int:
 class NdArr:
   """Row-major n-dimensional array of exact numbers."""
 
-  __slots__ = ('shape', 'data')
+  __slots__ = ('shape', 'data', 'kind')
 
-  def __init__(self, shape: Sequence[int], data: Sequence[Any]):
+  def __init__(self, shape: Sequence[int], data: Sequence[Any], kind: Optional[str] = None):
     self.shape = tuple(int(s) for s in shape)
     self.data = list(data)
+    # element kind when it is known: 'i' (an integer dtype) or 'f' (a float dtype); None = not tracked
+    self.kind = kind
     if _prod(self.shape) != len(self.data):
       raise NotModelled(f'shape {self.shape} does not hold {len(self.data)} items')
 
@@ -193,17 +195,18 @@ class NdArr:
         acc = f(acc, x)
       vals.append(acc)
     if keepdims:
-      return NdArr([1 if a in axes else self.shape[a] for a in range(n)], vals)
+      return NdArr([1 if a in axes else self.shape[a] for a in range(n)], vals, self.kind)
     if not out_shape:
       return vals[0]
-    return NdArr(out_shape, vals)
+    return NdArr(out_shape, vals, self.kind)
 
   # ------------------------------------------------------------- elementwise
   def map(self, f: Callable) -> 'NdArr':
-    return NdArr(self.shape, [f(x) for x in self.data])
+    return NdArr(self.shape, [f(x) for x in self.data], self.kind)
 
   @staticmethod
   def broadcast(f: Callable, a, b):
+    a0, b0 = a, b
     a = a if isinstance(a, NdArr) else NdArr((), [a])
     b = b if isinstance(b, NdArr) else NdArr((), [b])
     n = max(a.ndim, b.ndim)
@@ -222,7 +225,15 @@ class NdArr:
       out.append(f(ra.at(ia), rb.at(ib)))
     if not out_shape:
       return out[0]
-    return NdArr(out_shape, out)
+    def k(x, raw):
+      if isinstance(raw, NdArr):
+        return raw.kind
+      return 'f' if isinstance(raw, float) else ('i' if isinstance(raw, int) else None)
+    ka, kb = k(a, a0), k(b, b0)
+    kind = 'f' if 'f' in (ka, kb) else ('i' if ka == kb == 'i' else None)
+    if any(isinstance(v, float) for v in out):
+      kind = 'f'
+    return NdArr(out_shape, out, kind)
 
 
 BIN = {'add': operator.add, 'subtract': operator.sub, 'multiply': operator.mul, 'true_divide': operator.truediv, 'divide': operator.truediv,
@@ -285,8 +296,13 @@ def method(arr: NdArr, attr: str, args: list, kwargs: dict) -> Any:
       for x in arr.data:
         if not lo <= x <= hi:
           raise OverflowError(f'{x} cast to {tname} wraps around')
-      return NdArr(arr.shape, [int(x) for x in arr.data])
-    return NdArr(arr.shape, arr.data)
+      return NdArr(arr.shape, [int(x) for x in arr.data], 'i')
+    full = getattr(args[0], 'name', None) or ''
+    if full == 'dtype.i':
+      return NdArr(arr.shape, [int(x) for x in arr.data], 'i')   # float -> integer dtype truncates
+    if full == 'dtype.f' or tname in ('float16', 'float32', 'float64'):
+      return NdArr(arr.shape, arr.data, 'f')
+    return NdArr(arr.shape, arr.data, arr.kind)
   if attr in ('astype', 'copy'):
     return NdArr(arr.shape, arr.data)
   if attr == 'tolist':
